@@ -22,7 +22,10 @@ func emit(format string, a ...interface{}) {
 }
 
 // scanLines calls f for every input line that is not a case marker (those are echoed)
-func scanLines(f func(fields []string, raw string)) {
+func scanLines(f func(fields []string, raw string)) { scanLinesCase(nil, f) }
+
+// scanLinesCase additionally calls onCase at every case marker
+func scanLinesCase(onCase func(), f func(fields []string, raw string)) {
 	sc := bufio.NewScanner(os.Stdin)
 	sc.Buffer(make([]byte, 1<<24), 1<<24)
 	for sc.Scan() {
@@ -30,6 +33,9 @@ func scanLines(f func(fields []string, raw string)) {
 		if strings.HasPrefix(t, "#case") {
 			emit("%s", t)
 			out.Flush()
+			if onCase != nil {
+				onCase()
+			}
 			continue
 		}
 		fl := strings.Fields(t)
